@@ -383,6 +383,11 @@ def skeleton_check(ctx, res, kinds, rule, what, site_of=None):
         act = [key(t) for t in pi.tokens]
         a, e = project(act, kinds), project(exp, kinds)
         n += 1
+        ro = [ev for ev in pi.p.trace if ev.kind == "reorder"]
+        if ro and (func, "reorder") not in reported:
+            reported.add((func, "reorder"))
+            bad += 1
+            ctx.fail(rule, f"{func}(): {what}: a stored callback list is iterated through {ro[0].name}() instead of in its stored order", site=ro[0].site, key=f"{rule}|{func}|reorder")
         d = compare(a, e)
         if d is not None:
             bad += 1
